@@ -216,8 +216,10 @@ fn bristol_case(content: &[u8], dir: &std::path::Path) -> String {
         Err(p) => format!("rust-panic|importer panicked: {p}"),
         Ok(Ok(c)) => {
             // an imported circuit that validates must evaluate safely (C16) - just report the verdict
-            let v = catch(|| c.validate().is_ok()).unwrap_or(false);
-            format!("ok|{}", if v { "valid" } else { "invalid" })
+            // (validate() walks every declared input wire: only for plausible sizes)
+            let small = c.input_gates.iter().all(|n| *n < 1_000_000) && c.input_gates.len() < 1000;
+            let v = small && catch(|| c.validate().is_ok()).unwrap_or(false);
+            format!("ok|{}", if v { "valid" } else { "invalid-or-huge" })
         }
         Ok(Err(e)) => match catch(|| e.prettify()) {
             Ok(_) => "error|".to_string(),
